@@ -409,3 +409,58 @@ func unwrapIface(v ssa.Value) ssa.Value {
 	}
 	return v
 }
+
+// R-C14-6: configuration typestate of exec.Cmd. Wait's error is turned into the recorded exit status, so nothing may
+// be configured on the Cmd that makes Wait fail for a command that exited normally: WaitDelay (ErrWaitDelay when a
+// descendant keeps a stream open) and Cancel (context errors) do exactly that.
+func init() {
+	if p := registry["C14"]; p != nil {
+		p.Rules = append(p.Rules, Rule{ID: "R-C14-6", Doc: "no exec.Cmd option that changes what Wait returns for a command that exited", Min: 2, Run: ruleC14_6})
+		p.Explanation += " (R-C14-6) the only exec.Cmd fields the library sets are Path/Args/Env/Dir/Stdin/Stdout/Stderr/ExtraFiles/SysProcAttr; WaitDelay or Cancel would make Wait return an error for a command that exited with status 0, which the status conversion reports as -1."
+	}
+}
+
+func ruleC14_6(c *Ctx) {
+	const R = "R-C14-6"
+	allow := map[string]bool{"Path": true, "Args": true, "Env": true, "Dir": true, "Stdin": true, "Stdout": true, "Stderr": true, "ExtraFiles": true, "SysProcAttr": true}
+	deny := map[string]string{
+		"WaitDelay": "Wait returns exec.ErrWaitDelay when a descendant of the command still holds stdout/stderr open after the delay, although the command itself exited (possibly with status 0)",
+		"Cancel":    "Wait returns the context's / Cancel's error instead of the command's exit status",
+	}
+	n := 0
+	for _, pk := range []string{"in_toto", "cmd", "internal/spiffe"} {
+		for _, f := range c.srcFuncs(pk) {
+			for _, b := range f.Blocks {
+				for _, in := range b.Instrs {
+					st, ok := in.(*ssa.Store)
+					if !ok {
+						continue
+					}
+					fa, ok := st.Addr.(*ssa.FieldAddr)
+					if !ok || typeStr(fa.X.Type()) != "*os/exec.Cmd" {
+						continue
+					}
+					n++
+					name := fieldName(fa.X.Type(), fa.Field)
+					switch {
+					case allow[name]:
+						c.ok(R, fname(f), "exec.Cmd."+name+" is set", st.Pos(), "does not change what Wait returns for a command that exited")
+					case deny[name] != "":
+						c.bad(R, fname(f), "exec.Cmd."+name+" is set", st.Pos(), deny[name]+": the status conversion then records -1 for it")
+					default:
+						c.undecided(R, fname(f), "exec.Cmd."+name+" is set", st.Pos(), "effect of this option on Wait's result is not reviewed")
+					}
+				}
+			}
+		}
+	}
+	// exec.CommandContext implies Cancel
+	for _, pk := range []string{"in_toto", "cmd", "internal/spiffe"} {
+		for _, f := range c.srcFuncs(pk) {
+			for _, call := range callsIn(f, "os/exec.CommandContext") {
+				c.bad(R, fname(f), "exec.CommandContext", call.Pos(), "a command bound to a context is killed and Wait returns the context's error: the recorded exit status is then -1")
+			}
+		}
+	}
+	c.check(n >= 1, R, "in_toto", "exec.Cmd configuration sites", 0, fmt.Sprintf("%d field assignments", n), "no exec.Cmd configuration found")
+}
